@@ -93,7 +93,16 @@ func genC05(t *core.Tape, tier string) *Scenario {
 	}
 	if t.Bool(1, 3, "fail") {
 		p.HErr = genErrPlan(t, sc.Notes, p.bin)
-		p.HErr.Plain, p.HErr.NilErr = false, false
+		p.HErr.NilErr = false
+		if mode == 1 {
+			p.HErr.Plain = false // the reference server sends a code of its choosing
+		} else if p.HErr.WrapCtx == 0 && !p.HErr.WrapEOF && t.Bool(1, 6, "err.text.not.utf8") {
+			// an error whose text quotes bytes that are not valid UTF-8 (a peer's
+			// payload, a panic value): no protocol can carry it as it is, but code,
+			// the rest of the text, details and metadata must still arrive
+			p.HErr.Msg = []string{"bad frame \xff\xfe\x80", "\xc3 truncated rune", "caf\xe9 latin-1", "ok \xf0\x9f then text"}[t.Choose(4, "err.text.not.utf8.which")]
+			sc.Notes["err_text_not_utf8"]++
+		}
 		if mode == 2 && t.Bool(1, 4, "proxied.status.keys") {
 			// a handler that passes an upstream gRPC error's metadata through:
 			// the wire must still carry exactly one status, the handler's own
@@ -441,7 +450,7 @@ func checkC05(w *World, st core.Status, r *RunResult) []Violation {
 				add("handler-response-error", "handler failed, wire carries success")
 			case p.HErr != nil:
 				code, msg := expectedError(p)
-				if resp.Err.Code != uint32(code) || resp.Err.Message != msg {
+				if resp.Err.Code != uint32(code) || !sameText(msg, resp.Err.Message) {
 					add("handler-response-error", fmt.Sprintf("handler returned code %d %q, wire carries code %d %q", code, msg, resp.Err.Code, resp.Err.Message))
 				}
 				if !p.HErr.Plain && !sameDetails(resp.Err.Details, refDetails(p.HErr)) {
